@@ -187,6 +187,11 @@ def run(ctx):
     if not ctx.quick:
         ctx.exhaustive_space("all 65536 data lengths", 65536 // ctx.nshards)
 
+    # ---- random full combinations (thorough: many) -----------------------------------------------------------------
+    for _ in range(ctx.size(2000, 1_500_000) // ctx.nshards):
+        vals = rnd_vals()
+        L = rng.choice([1, 2, 3, rng.randrange(1, 40), rng.randrange(1, 2000)])
+        check_packet(ctx, vals, bytes([rng.getrandbits(8)]) * L, reframe=rng.random() < 0.2)
     # ---- framer -> accessor direction: all 2^16 values of header words 1 and 2 ---------------------------
     for word in (1, 2):
         chunk = []
